@@ -422,4 +422,33 @@ theorem inverse_of_full {py px Fy Fx : RegAxis} {lf : ℝ} (h : FullAt py px Fy 
     exact fft2_adjoint _ _ _ _ _
   exact inverseOn_of_evaluates hT hE hA hA' (fft2_inverse _ _ _ _ _ rfl rfl)
 
+/-! ## the character in turns: periodicity, `exp(-2πi/4) = -i` (for `impulseResponse`) -/
+
+open Complex in
+theorem expT_int (n : ℤ) : expT (n : ℝ) = 1 := by
+  unfold expT
+  have : (2 * (Real.pi : ℂ) * ((n : ℝ) : ℂ) * I) = (n : ℂ) * (2 * (Real.pi : ℂ) * I) := by push_cast; ring
+  rw [this, Complex.exp_int_mul_two_pi_mul_I]
+
+open Complex in
+theorem expT_frac (q : ℚ) : expT ((frac q : ℚ) : ℝ) = expT ((q : ℚ) : ℝ) := by
+  unfold frac
+  have h : (((q - (q.floor : ℚ) : ℚ)) : ℝ) = (q : ℝ) + ((-q.floor : ℤ) : ℝ) := by push_cast; ring
+  rw [h, expT_isChar.add, expT_int, mul_one]
+
+open Complex in
+theorem expT_neg_quarter : expT (-(1 / 4)) = -I := by
+  unfold expT
+  have : (2 * (Real.pi : ℂ) * ((-(1 / 4) : ℝ) : ℂ) * I) = -((Real.pi : ℂ) / 2 * I) := by push_cast; ring
+  rw [this, Complex.exp_neg, Complex.exp_mul_I]
+  have h1 : Complex.cos ((Real.pi : ℂ) / 2) = 0 := by
+    have := Complex.ofReal_cos (Real.pi / 2); rw [Real.cos_pi_div_two] at this; push_cast at this; exact this.symm
+  have h2 : Complex.sin ((Real.pi : ℂ) / 2) = 1 := by
+    have := Complex.ofReal_sin (Real.pi / 2); rw [Real.sin_pi_div_two] at this; push_cast at this; exact this.symm
+  rw [h1, h2]; simp
+
+
+theorem ratAbs_of_pos {q : ℚ} (h : 0 < q) : ratAbs q = q := by
+  unfold ratAbs; rw [if_neg (not_lt.mpr h.le)]
+
 end HcipyVerif.Fraunhofer
